@@ -297,7 +297,8 @@ class Headers:
                 )
 
             proof_of_work = self.get_proof_of_work(current_hash)
-            if proof_of_work > target:
+            # consensus compares with the target decoded from the bits, i.e. truncated to the compact mantissa
+            if proof_of_work > ArithUint256.from_compact(header['bits']):
                 raise InvalidHeader(
                     height, f"insufficient proof of work: {proof_of_work.value} vs target {target.value}"
                 )
